@@ -4,19 +4,10 @@ import (
 	"golang.org/x/tools/go/ssa"
 )
 
-// stubs filled in by later stages
 
-func tryReplay(prog *Program, o *Obligation, rf *ReplayFile) bool {
-	rf.ReplayResult = "replay not available for this obligation kind"
-	return false
-}
-
-func runReplayTest(repo, pkg, test string) (string, bool) { return "", false }
 
 func runLemmas(prog *Program, cs *ContractSet, pd *PropertyDef, tier string) []*Obligation { return nil }
 
 func (x *Exec) literalGlobal(fr *Frame, g *ssa.Global) (Val, bool) { return Val{}, false }
 
 var ghostLocs = map[string]func(env *SpecEnv, n ECall, src string) []LocSet{}
-
-func registerGhostBuiltins() {}
